@@ -263,9 +263,6 @@ def _msg_nontrivial(evs):
     return bad and any(e["ev"] == "emit" for e in evs)
 
 
-KEY_STRANDED = "parked-behind-undecryptable-head"
-
-
 def _parked_undecryptable(evs, at, g):
     """input/observation shape of the stranding defect: at the rejected `quiet` line an honest entry of device d that V
     can open is undelivered, and an entry V can never open (forged / damaged body / sealed at or before the announced
@@ -340,9 +337,11 @@ def _judge_msg(ctx, scripts, events, name):
             fids = _family_ids(sc)
             hit = line.get("e") if line.get("ev") == "emit" else None
             if line.get("ev") == "quiet" and _parked_undecryptable(rj["events"], rj["at"], line.get("g")):
-                ctx.classify(KEY_STRANDED, "store layer: after V registered a chain key, only the parked message with the lowest counter is retried "
-                             "(ProcessMessageQueueForDevicePK); when that one cannot be opened (forged, or sealed before the announced counter) "
-                             "the decryptable messages parked behind it are never delivered: " + what, obj)
+                # the shape of the defect repaired by /repo 0fe62f4 (known_findings: C08 stranded:parked-behind-undecryptable-head)
+                ctx.violation("store layer: a decryptable message stays parked behind a parked message of the same device that can never be "
+                              "opened (forged, or sealed before the announced counter): " + what, obj)
+            elif line.get("ev") == "restless":
+                ctx.violation("store layer: V keeps emitting GroupMessageEvents although nothing arrives any more: " + what, obj)
             elif hit and any(hit == f or hit.startswith(f + "_") for f in fids):
                 ctx.classify(envelope.KNOWN_KEY, "store layer: a fellow member's re-encryption of another device's signed payload is emitted as a "
                              "GroupMessageEvent of that device at the forged counter: " + what, obj)
@@ -359,11 +358,16 @@ def run_c01_part(ctx, replay_obj=None):
     else:
         build = _bg(lambda: _binary(ctx))
         gen = _gen_msg(ctx, quick)
-        nmodel = 260 if quick else 2600
+        nmodel = 360 if quick else 5000
         scripts = []
         counts = {}
         for shared in (True, False):
-            pick = _stratified(ctx.rng, gen[shared], _kind, nmodel // 2)
+            # quotas per kind of adversary move (the forgery strata alone outnumber the budget)
+            half = nmodel // 2
+            pick = []
+            for modes, share in ((("tamper",), 0.2), (("honest",), 0.08), (("forge", "product"), 0.72)):
+                pick += _stratified(ctx.rng, [x for x in gen[shared] if x["cfg"]["mode"] in modes], _kind, int(half * share))
+            ctx.rng.shuffle(pick)
             for j, sc in enumerate(pick):
                 gts = GTYPES[shared]
                 gt = gts[(j + ctx.seed) % len(gts)]
@@ -374,7 +378,7 @@ def run_c01_part(ctx, replay_obj=None):
                 scripts.append(s2)
                 k = "%s_%s_%s" % (sc["cfg"]["mode"], "shared" if shared else "pergroup", variant)
                 counts[k] = counts.get(k, 0) + 1
-        blind = _blind_msg(ctx.rng, 60 if quick else 600)
+        blind = _blind_msg(ctx.rng, 90 if quick else 1200)
         counts["blind"] = len(blind)
         scripts += blind
         for i, s in enumerate(scripts):
@@ -532,6 +536,11 @@ def _meta_script(rng, world, terms, shuffle):
             order.append(src.pop(0))
     else:
         order = [i + 1 for i in range(len(terms))]
+    if shuffle:
+        # some heads are not delivered by themselves: they reach V later, in one batch with a successor of the same writer
+        last = {wtr: (v[-1] if v else None) for wtr, v in per.items()}
+        wof = {s["x"]: s["s"] for s in steps}
+        order = [x for x in order if x == last[wof[x]] or rng.random() < 0.7]
     steps += [{"act": "deliver", "x": x} for x in order]
     return {"cfg": {"world": world, "mode": "meta"}, "steps": steps}
 
@@ -543,7 +552,7 @@ def _feat(tm):
 def _meta_scripts(ctx, quick, cases, pairs):
     rng = ctx.rng
     scripts, counts = [], {}
-    per_world = 10 if quick else 250
+    per_world = 14 if quick else 250
     length = 10 if quick else 14
     for world in ("mm", "acct", "contact"):
         pool = _world_pool(world, cases)
@@ -577,7 +586,7 @@ def _meta_scripts(ctx, quick, cases, pairs):
             scripts.append(_meta_script(rng, world, terms[:length + 2], shuffle=True))
             counts[world + "_blind"] = counts.get(world + "_blind", 0) + 1
     # the model's two-delivery histories (multi-member world, creator holds the group key)
-    npairs = 12 if quick else 300
+    npairs = 16 if quick else 300
     pick = _stratified(rng, pairs, lambda p: tuple(_feat(t)[:6] for t in p), npairs * 4)
     for j in range(0, len(pick), 4):
         terms = [t for p in pick[j:j + 4] for t in p]
@@ -594,7 +603,7 @@ def _judge_meta(ctx, scripts, events, name):
     if set(b[0] for b in blocks) != set(byid_sc):
         raise vf.Infra("store driver did not record every script")
     acc, rejects = vf.validate_blocks(ctx, MON, events, name, consts={"W": str(W)}, max_rejects=4, timeout=1500)
-    stats = {"deliveries": 0, "forged": 0, "correct": 0, "open": 0, "reopens": 0}
+    stats = {"deliveries": 0, "forged": 0, "correct": 0, "open": 0, "reopens": 0, "batches_of_2_or_more": 0, "writer_index_panics_on_unforged_terms": 0}
     distinct = set()
     for bid, evs in blocks:
         for e in evs:
@@ -604,7 +613,9 @@ def _judge_meta(ctx, scripts, events, name):
                 stats[c] += 1
                 if c != "correct":
                     distinct.add(e["world"] + json.dumps(e["tm"], sort_keys=True))
+                stats["batches_of_2_or_more"] += e["nb"] > 1
             stats["reopens"] += e["ev"] == "mfinal"
+            stats["writer_index_panics_on_unforged_terms"] += e["ev"] in ("crash", "rcrash")
     ctx.evaluations += stats["deliveries"]
     ctx.distinct_nontrivial += len(distinct)
     for rj in rejects:
